@@ -17,6 +17,7 @@ import MagpyVerif.Model.Copy
 import MagpyVerif.Lemmas.Copy
 import MagpyVerif.Model.ForestAttr
 import MagpyVerif.Lemmas.ForestAttr
+import MagpyVerif.Lemmas.ForestKw
 namespace MagpyVerif.C18
 open MagpyVerif Forest
 
@@ -449,7 +450,7 @@ theorem copy_overrides_only_copy (s : AForest) (hw : WF s) (hi : s.f.Inv) (ha : 
 * the class is the original's (the tree shape is `copy_subtree_iso`);
 * if `x` is not the copied object itself: geometry / excitation arrays, scalar attributes and the style read exactly
   as `x`'s, whatever the keyword arguments; the path (position and orientation) too unless a `position=` keyword
-  was given (which moves the children of a copied collection along, as the position setter does);
+  or an `orientation=` keyword was given (which move / rotate the children of a copied collection along, as the setters do);
 * the copied object itself, without keyword arguments: everything reads as the original's except the style label,
   which is the iterated label (`copyLabel`: none if the original has neither a style object nor style arguments,
   `<Class>_01` for an unlabelled original, the incremented label otherwise). -/
@@ -461,7 +462,7 @@ theorem copy_attrs_equal (s : AForest) (hw : WF s) (hi : s.f.Inv) (ha : s.f.Acyc
       (∀ sl, sl ≠ .pos → sl ≠ .ori → (s.copyKw o kw).cellAt (s.f.cren o x) sl = s.cellAt x sl) ∧
       ((s.copyKw o kw).na (s.f.cren o x)).scal = (s.na x).scal ∧
       (s.copyKw o kw).styleView (s.f.cren o x) = s.styleView x ∧
-      ((∀ ov ∈ kw, ∀ p, ov ≠ .pos p) → (s.copyKw o kw).view (s.f.cren o x) = s.view x)) ∧
+      ((∀ ov ∈ kw, (∀ p, ov ≠ .pos p) ∧ (∀ r, ov ≠ .ori r)) → (s.copyKw o kw).view (s.f.cren o x) = s.view x)) ∧
     (x = o → kw = [] →
       (s.copyKw o kw).view (s.f.cren o x) =
         { s.view o with style :=
@@ -613,6 +614,167 @@ example : ∀ op ∈ demoLater, ∀ i ∈ mentions op, ¬ IsNew demoA.f 0 i := b
 -- the containers of the copy are new ones
 example : ((demoA.copyKw 0 demoKw).na 1).adr .pos = some 3 ∧ ((demoA.copyKw 0 demoKw).na 3).adr .pos = some 27 ∧
     ((demoA.copyKw 0 demoKw).na 0).adr .kids = some 2 ∧ ((demoA.copyKw 0 demoKw).na 2).adr .kids = some 14 := by decide
+
+
+/-! ## `copy(**kwargs)` with ANY keywords (`copyKwG`): position (incl. paths), orientation (incl. `None` and paths),
+array and scalar attributes, style_label, style properties, `parent=`, `children=`, values a setter rejects.
+`copyKwG` is the code: deep copy, label, then `setattr(obj_copy, k, v)` for the non-style keywords in keyword order
+(each one IS the setter operation `kwOp`, run by the same `stepBase` as a direct assignment; the loop stops at the
+first setter that raises), then ONE `style.update` with all style keywords.  `assignRun root kws t` = the assignments
+`twin.k = v` / `twin.style.k = v` in keyword order on object `root` of state `t`. -/
+
+/-- (1) `copy(**kw)` IS "plain copy, then the values assigned one after the other in keyword order":
+* the call raises iff one of the assignments raises;
+* when it does not raise, the two states have the same forest (all parent / children / typed links of all objects)
+  and EVERY object — the copy, its clones, the original, every other object, including objects that `parent=` /
+  `children=` name — reads the same: class, position and orientation path (so also what `position=` / `orientation=`
+  do to the other path by the setters' pad / slice rule, and to the children of a copied collection), array and scalar
+  attributes, style.
+Keyword lists are arbitrary (Python keywords are unique; the statement does not need it).  The states themselves
+differ in heap addresses only (the style object of the copy is created at a different moment). -/
+theorem copy_kw_eq_assignments (s : AForest) (hw : WF s) (hi : s.f.Inv) (ha : s.f.Acyclic) (o : Nat) (ho : o < s.f.n)
+    (kws : List Kw) :
+    (s.copyKwG o kws).2 = (assignRun s.f.n kws (s.copyKw o [])).2 ∧
+    ((s.copyKwG o kws).2 = true →
+      (s.copyKwG o kws).1.f = (assignRun s.f.n kws (s.copyKw o [])).1.f ∧
+      ∀ j, j < (s.copyKwG o kws).1.f.n →
+        (s.copyKwG o kws).1.view j = (assignRun s.f.n kws (s.copyKw o [])).1.view j) :=
+  copyKwG_vs_assign s hw hi ha o ho kws
+
+/-- … in every reachable state -/
+theorem copy_kw_eq_assignments_reachable (specs : List Spec) (ops0 : List AOp) (o : Nat)
+    (ho : o < (run ops0 (init specs)).f.n) (kws : List Kw) :
+    let s := run ops0 (init specs)
+    (s.copyKwG o kws).2 = (assignRun s.f.n kws (s.copyKw o [])).2 ∧
+    ((s.copyKwG o kws).2 = true →
+      (s.copyKwG o kws).1.f = (assignRun s.f.n kws (s.copyKw o [])).1.f ∧
+      ∀ j, j < (s.copyKwG o kws).1.f.n →
+        (s.copyKwG o kws).1.view j = (assignRun s.f.n kws (s.copyKw o [])).1.view j) := by
+  intro s
+  obtain ⟨hw, hi, ha⟩ := reachable_wf specs ops0
+  exact copyKwG_vs_assign s hw hi ha o ho kws
+
+/-- on attribute keywords whose values are accepted the general function is `copyKw`, the function (a)–(d) are about -/
+theorem copy_kw_attr (s : AForest) (o : Nat) (kw : List Ov) (h : (s.copyKwG o (kw.map Kw.attr)).2 = true) :
+    s.copyKwG o (kw.map Kw.attr) = (s.copyKw o kw, true) := copyKwG_attr s o kw h
+
+/-- FRAME of `copy(**kw)`, any keywords, also when it raises part-way: a set `P` of objects that no parent link
+enters or leaves, that contains neither the original nor any object named by a `parent=` / `children=` keyword, keeps
+everything — reads, record, containers and their content, parent, children.  (`parent=` / `children=` are setter
+operations on the copy that DO edit other objects: exactly the trees of the objects they name.) -/
+theorem copy_kw_frame (s : AForest) (P : Nat → Prop) (hs : Sep P s) (o : Nat) (ho : o < s.f.n) (hoP : ¬ P o)
+    (kws : List Kw) (hn : ∀ kw ∈ kws, ∀ i ∈ kw.named, ¬ P i) (j : Nat) (hj : P j) :
+    (s.copyKwG o kws).1.view j = s.view j ∧ (s.copyKwG o kws).1.f.parent j = s.f.parent j ∧
+    (s.copyKwG o kws).1.f.children j = s.f.children j ∧ (s.copyKwG o kws).1.f.kind j = s.f.kind j ∧
+    (s.copyKwG o kws).1.na j = s.na j ∧
+    (∀ sl a, (s.na j).adr sl = some a → (s.copyKwG o kws).1.heap a = s.heap a) :=
+  (copyKwG_sep s hs o kws ho hoP hn).2.view hs j hj
+
+/-! non-vacuity / what the structural keywords do (state `demoA`: collection 0 at (1,0,0) holding magnet 1 at (5,5,5)) -/
+def demoTop : AForest :=
+  run [.tree (.add 0 [1] false)] (init
+    [{ kind := .coll, cls := 5, pos := [⟨1, 0, 0⟩], arrs := [], scal := [], skw := SData.empty },
+     { kind := .src, cls := 0, pos := [⟨5, 5, 5⟩], arrs := [(.a0, [1, 2, 3]), (.a1, [1, 1, 1])], scal := [], skw := SData.empty },
+     { kind := .coll, cls := 5, pos := [⟨0, 0, 0⟩], arrs := [], scal := [], skw := SData.empty }])
+
+-- `copy(parent=col)` ADDS the copy to `col` (a documented override that edits another object): collection 2 gets child 3
+example : (demoTop.copyKwG 0 [.parent (some 2)]).2 = true ∧ (demoTop.copyKwG 0 [.parent (some 2)]).1.f.children 2 = [3] ∧
+    (demoTop.copyKwG 0 [.parent (some 2)]).1.f.parent 3 = some 2 ∧
+    (demoTop.copyKwG 0 [.parent (some 2)]).1.f.children 0 = [1] := by decide
+-- SURPRISING: `col.copy(children=col.children)` MOVES the children away from the original (the original is emptied) …
+example : (demoTop.copyKwG 0 [.children [1]]).2 = true ∧ (demoTop.copyKwG 0 [.children [1]]).1.f.children 0 = [] ∧
+    (demoTop.copyKwG 0 [.children [1]]).1.f.children 3 = [1] ∧ (demoTop.copyKwG 0 [.children [1]]).1.f.parent 1 = some 3 ∧
+    (demoTop.copyKwG 0 [.children [1]]).1.f.parent 4 = none := by decide
+-- … and a later `position=` keyword then moves that OLD object: an override that is not "applied to the copy only"
+example : (demoTop.copyKwG 0 [.children [1], .attr (.pos [⟨10, 0, 0⟩])]).1.posOf 1 = [⟨14, 5, 5⟩] ∧
+    demoTop.posOf 1 = [⟨5, 5, 5⟩] := by decide
+-- orientation=None / a rotation path as keyword: unit rotation with a length-1 path; a path of 2 pads the position path
+def rz : ARot := ⟨⟨0, -1, 0⟩, ⟨1, 0, 0⟩, ⟨0, 0, 1⟩⟩
+example : (demoTop.copyKwG 1 [.attr (.ori (some [rz, 1]))]).1.oriOf 3 = [rz, 1] ∧
+    (demoTop.copyKwG 1 [.attr (.ori (some [rz, 1]))]).1.posOf 3 = [⟨5, 5, 5⟩, ⟨5, 5, 5⟩] ∧
+    (demoTop.copyKwG 1 [.attr (.ori (some [rz, 1])), .attr (.ori none)]).1.oriOf 3 = [1] ∧
+    (demoTop.copyKwG 1 [.attr (.ori (some [rz, 1])), .attr (.ori none)]).1.posOf 3 = [⟨5, 5, 5⟩] := by decide
+-- orientation= on a copied collection rotates the copied children about the copy's position (here by rz about (1,0,0))
+example : (demoTop.copyKwG 0 [.attr (.ori (some [rz]))]).1.posOf 4 = [⟨-4, 4, 5⟩] ∧
+    (demoTop.copyKwG 0 [.attr (.ori (some [rz]))]).1.oriOf 4 = [rz] ∧ demoTop.posOf 1 = [⟨5, 5, 5⟩] := by decide
+
+/-! ### (2) a seeded variant: `copy(orientation=None)` keeps the original's orientation -/
+
+/-- the keyword loop with an `if v is not None` guard in front of `setattr` -/
+def kwStepGuarded (root : Nat) (r : AForest × Bool) : Kw → AForest × Bool
+  | .attr (.ori none) => r
+  | .parent none => r
+  | kw => kwStep root r kw
+
+def copyKwGuarded (s : AForest) (o : Nat) (kws : List Kw) : AForest × Bool :=
+  let r := kws.foldl (kwStepGuarded s.f.n) (labelStep s (s.copy0 o) o, true)
+  if r.2 && (styleKw (attrs kws)).nonempty then
+    (r.1.setStyle s.f.n (fun d => d.update (styleKw (attrs kws))), true)
+  else r
+
+/-- one magnet that has been given the orientation `rz` -/
+def demoRot : AForest :=
+  run [.setOri 0 (some [rz])] (init
+    [{ kind := .src, cls := 0, pos := [⟨5, 5, 5⟩], arrs := [(.a0, [1, 2, 3]), (.a1, [1, 1, 1])], scal := [], skw := SData.empty }])
+
+/-- the obligation `copy_kw_eq_assignments` is violated by the guarded variant: on the literal state `demoRot` (a
+reachable, well-formed state) the variant's copy keeps `rz`, the plain copy with `orientation = None` assigned has the
+unit rotation — the reads of the copy differ.  The unguarded model satisfies the equation on the same input. -/
+theorem guarded_variant_breaks_obligation :
+    (copyKwGuarded demoRot 0 [.attr (.ori none)]).2 = true ∧
+    (copyKwGuarded demoRot 0 [.attr (.ori none)]).1.view 1 ≠
+      (assignRun demoRot.f.n [.attr (.ori none)] (demoRot.copyKw 0 [])).1.view 1 ∧
+    (copyKwGuarded demoRot 0 [.attr (.ori none)]).1.oriOf 1 = [rz] ∧
+    (assignRun demoRot.f.n [.attr (.ori none)] (demoRot.copyKw 0 [])).1.oriOf 1 = [1] ∧
+    (demoRot.copyKwG 0 [.attr (.ori none)]).1.view 1 =
+      (assignRun demoRot.f.n [.attr (.ori none)] (demoRot.copyKw 0 [])).1.view 1 := by decide
+
+
+/-! ### (3) setters raising part-way in a keyword list -/
+
+/-- a keyword list with a value its setter rejects (`position="bad"`) makes `copy` raise, wherever it stands -/
+theorem copy_bad_value_raises (s : AForest) (o : Nat) (kws : List Kw) (hb : Kw.bad ∈ kws) :
+    (s.copyKwG o kws).2 = false := copyKwG_bad s o kws hb
+
+/-- `copy(**kw)` WITHOUT `parent=` / `children=` keywords (attribute keywords in any order, any of them with a rejected
+value), whether it returns or raises part-way — e.g. `copy(position=bad)`:
+* THE ORIGINAL IS UNCHANGED, and so is every other object that existed: same reads, same parent, same children, same
+  class (the only write to an old object is the creation of the original's lazily un-initialised style, invisible to
+  every read);
+* NO HALF-BUILT COPY IS REACHABLE from any old object: no old object's children list or parent link mentions one of
+  the objects made by the deep copy — after a raise they are garbage.
+(The state after the abandoned loop is the state of a successful copy with the keywords before the raising one.) -/
+theorem copy_raise_original_unchanged (s : AForest) (hw : WF s) (hi : s.f.Inv) (ha : s.f.Acyclic) (o : Nat)
+    (ho : o < s.f.n) (kws : List Kw) (hp : ∀ kw ∈ kws, kw.plain) (j : Nat) (hj : j < s.f.n) :
+    (s.copyKwG o kws).1.view j = s.view j ∧ (s.copyKwG o kws).1.f.parent j = s.f.parent j ∧
+    (s.copyKwG o kws).1.f.children j = s.f.children j ∧ (s.copyKwG o kws).1.f.kind j = s.f.kind j ∧
+    (∀ c ∈ (s.copyKwG o kws).1.f.children j, c < s.f.n) ∧
+    (∀ p, (s.copyKwG o kws).1.f.parent j = some p → p < s.f.n) := by
+  obtain ⟨kw', h⟩ := copyKwG_plain s o kws hp
+  rw [h]
+  obtain ⟨a1, a2, a3, a4, _⟩ := copy_overrides_only_copy s hw hi ha o ho kw' j hj
+  refine ⟨a1, a2, a3, a4, ?_, ?_⟩
+  · intro c hc
+    rw [a3] at hc
+    exact (hi.inScope c j ((hi.parent_iff c j).mpr hc)).2
+  · intro p hp'
+    rw [a2] at hp'
+    exact (hi.inScope j p hp').1
+
+-- non-vacuity: `copy(position=(0,0,9), position-like bad value)` on `demoA`: raises, originals as before, the clones exist unreferenced
+example : (demoA.copyKwG 0 [.attr (.pos [⟨0, 0, 9⟩]), .bad, .attr (.label "k".toList)]).2 = false ∧
+    (demoA.copyKwG 0 [.attr (.pos [⟨0, 0, 9⟩]), .bad, .attr (.label "k".toList)]).1.posOf 0 = [⟨1, 0, 0⟩] ∧
+    (demoA.copyKwG 0 [.attr (.pos [⟨0, 0, 9⟩]), .bad, .attr (.label "k".toList)]).1.f.children 0 = [1] ∧
+    (demoA.copyKwG 0 [.attr (.pos [⟨0, 0, 9⟩]), .bad, .attr (.label "k".toList)]).1.f.n = 4 := by decide
+example : ∀ kw ∈ [Kw.attr (.pos [⟨0, 0, 9⟩]), .bad, .attr (.label "k".toList)], kw.plain := by
+  intro kw h; simp at h; rcases h with rfl | rfl | rfl <;> trivial
+/-- the hypothesis "no `parent=` / `children=` keyword" cannot be dropped: `copy(parent=col, position=bad)` raises, and
+the half-built copy (labelled, positioned as the original) STAYS a child of the old collection `col` -/
+theorem halfbuilt_copy_reachable_after_parent_kw :
+    (demoTop.copyKwG 1 [.parent (some 2), .bad]).2 = false ∧
+    (demoTop.copyKwG 1 [.parent (some 2), .bad]).1.f.children 2 = [3] ∧
+    (demoTop.copyKwG 1 [.parent (some 2), .bad]).1.f.parent 3 = some 2 ∧
+    (demoTop.copyKwG 1 [.bad, .parent (some 2)]).1.f.children 2 = [] := by decide
 
 end Attr
 
